@@ -3,18 +3,18 @@
 
    bytes         hex atom, "-" for the empty string
    optional x    "_" for nil
-   query         (q (<import>*) (<funcdef>*) <term|_> <query|_> <op|_> <query|_> (<pattern>*))
+   query         (q (<import>..) (<funcdef>..) <term|_> <query|_> <op|_> <query|_> (<pattern>..))
    import        (<hex> <hex> <hex>)
-   funcdef       (<hexname> (<hexarg>*) <query>)
-   term          (<kind> payload... (<suffix>*))       kinds below
+   funcdef       (<hexname> (<hexarg>..) <query>)
+   term          (<kind> payload... (<suffix>..))       kinds below
    index         (<hexname> <jstring|_> <query|_> <query|_> <t|f>)
-   func          (<hexname> (<query>*))
-   jstring       (<hexstr> <_|(<query>*)>)
+   func          (<hexname> (<query>..))
+   jstring       (<hexstr> <_|(<query>..)>)
    objectkeyval  (<hexkey> <jstring|_> <query|_> <query|_>)
    suffix        (<index|_> <t|f> <t|f>)
-   pattern       (<hexname> (<pattern>*) (<patternobject>*))
+   pattern       (<hexname> (<pattern>..) (<patternobject>..))
    patternobject (<hexkey> <jstring|_> <query|_> <pattern|_>)
-   values        null true false (i <dec>) (b <dec>) (f <bits>) (s <hex>) (a v*) (o (<hexkey> v)*)   *)
+   values        null true false (i <dec>) (b <dec>) (f <bits>) (s <hex>) (a v..) (o (<hexkey> v)..)   *)
 From Coq Require Import String.
 From Coq Require Import List ZArith NArith Bool.
 From Verif Require Import common.Sexp sem.JV sem.Syntax.
